@@ -173,6 +173,43 @@ fn scoped_let_variant(text: &str, st: &FxHashMap<String, ExprRef>, salt: usize) 
     Some(format!("{}(let (({n} {})) {n}){}", &text[..lo], &text[lo..hi], &text[hi..]))
 }
 
+/// `T[S := (let ((n S)) (ite (let ((n true)) n) n n))]`: an inner let re-binds a name that an outer let has
+/// bound (to a value of another sort); once the inner let is closed, `n` must denote the outer binding again.
+fn nested_let_variant(text: &str, salt: usize) -> Option<String> {
+    let b = text.as_bytes();
+    let mut cands: Vec<(usize, usize)> = vec![];
+    for i in 1..b.len() {
+        if b[i] == b'(' && b[i - 1].is_ascii_whitespace() {
+            let head = text[i + 1..].split(|c: char| c.is_whitespace() || c == '(' || c == ')').next().unwrap_or("");
+            if head.is_empty() || head == "_" || head == "as" || head == "Array" {
+                continue;
+            }
+            let mut depth = 0;
+            let mut in_bar = false;
+            for (j, c) in b[i..].iter().enumerate() {
+                match c {
+                    b'|' => in_bar = !in_bar,
+                    b'(' if !in_bar => depth += 1,
+                    b')' if !in_bar => {
+                        depth -= 1;
+                        if depth == 0 {
+                            cands.push((i, i + j + 1));
+                            break;
+                        }
+                    }
+                    _ => {}
+                }
+            }
+        }
+    }
+    if cands.is_empty() {
+        return None;
+    }
+    let (lo, hi) = cands[salt % cands.len()];
+    let n = "pv!n";
+    Some(format!("{}(let (({n} {})) (ite (let (({n} true)) {n}) {n} {n})){}", &text[..lo], &text[lo..hi], &text[hi..]))
+}
+
 struct EqJob {
     sh_idx: usize,
     what: &'static str,
@@ -251,7 +288,10 @@ fn round_trip_chunk(rep: &mut Report, chunk: &[Sh], base: usize) {
                 }
             }
             if idx % 3 == 1 {
-                if let Some(lt) = scoped_let_variant(&text, &st, idx) {
+                for (vi, lt) in [scoped_let_variant(&text, &st, idx), nested_let_variant(&text, idx)].into_iter().enumerate().filter_map(|(k, x)| x.map(|y| (k, y))) {
+                    if vi == 1 {
+                        rep.count("nested_let_variants", 1);
+                    }
                     rep.count("obligations", 1);
                     rep.count("scoped_let_variants", 1);
                     match crate::panics::guarded(|| parse_expr(&mut ctx, &st, lt.as_bytes())) {
@@ -617,6 +657,10 @@ fn reader_semantics_part(rep: &mut Report) {
         }
     };
     let emitted = |name: &str| src.contains(&format!("\"({name} ")) || src.contains(&format!("(_ {name} ")) || (name == "const" && src.contains("(as const "));
+    // operators the *reader* accepts (harvested from its source) although the writer never emits them: solvers
+    // print them in model values and responses; a term the reader accepts must get its SMT-LIB meaning
+    let reader_src = std::fs::read_to_string(crate::report::repo_root().join("patronus/src/smt/parser.rs")).unwrap_or_default();
+    let accepted = |name: &str| reader_src.contains(&format!("Sym(b\"{name}\")"));
     let mut z3 = Proc::new(Which::Z3New, 10_000);
     let mut second = Proc::new(Which::Cvc5, 10_000);
     for w in [2u32, 8, 65] {
@@ -670,9 +714,58 @@ fn reader_semantics_part(rep: &mut Report) {
         cases.push(("store", "(store m i a)".into(), Ty::Arr(2, w)));
         cases.push(("store", "(store (store m i a) (bvnot i) b)".into(), Ty::Arr(2, w)));
         cases.push(("const", format!("((as const {arr}) a)"), Ty::Arr(2, w)));
-        for (name, text, want_ty) in cases {
+        // standard operators outside the writer's vocabulary, and n-ary / chained forms
+        let mut reader_only: Vec<(&str, String, Ty)> = vec![];
+        for n in ["bvult", "bvule", "bvslt", "bvsle", "distinct"] {
+            let t = Ty::BV(1);
+            reader_only.push((n, format!("({n} a b)"), t));
+            reader_only.push((n, format!("({n} b a)"), t));
+        }
+        for n in ["bvnand", "bvnor", "bvxnor"] {
+            reader_only.push((n, format!("({n} a b)"), Ty::BV(w)));
+        }
+        reader_only.push(("distinct", "(distinct p q)".into(), Ty::BV(1)));
+        reader_only.push(("distinct", "(distinct a b (bvnot a))".into(), Ty::BV(1)));
+        for n in ["bvand", "bvor", "bvxor", "bvadd", "bvmul"] {
+            reader_only.push((n, format!("({n} a b (bvnot a))"), Ty::BV(w)));
+            reader_only.push((n, format!("({n} a b a b)"), Ty::BV(w)));
+        }
+        for n in ["and", "or", "xor"] {
+            reader_only.push((n, format!("({n} p q (not p))"), Ty::BV(1)));
+        }
+        reader_only.push(("=", "(= a b a)".into(), Ty::BV(1)));
+        reader_only.push(("=", "(= p q p)".into(), Ty::BV(1)));
+        reader_only.push(("=>", "(=> p q p)".into(), Ty::BV(1)));
+        reader_only.push(("=>", "(=> p q (not q))".into(), Ty::BV(1)));
+        reader_only.push(("concat", "(concat a c a)".into(), Ty::BV(2 * w + 3)));
+        let n_writer_cases = cases.len();
+        cases.extend(reader_only);
+        for (ci, (name, text, want_ty)) in cases.into_iter().enumerate() {
             crate::panics::set_context(format!("C14 reader semantics of `{text}`"));
-            if !emitted(name) {
+            let lenient = ci >= n_writer_cases;
+            if lenient {
+                if !accepted(name) {
+                    rep.count("reader_only_spellings_not_in_reader_source", 1);
+                    continue;
+                }
+                // an error is an acceptable answer for a form the writer never emits; a value must be right
+                match crate::panics::guarded(|| parse_expr(&mut ctx, &st, text.as_bytes())) {
+                    Ok(Ok(_)) => {}
+                    Ok(Err(_)) => {
+                        rep.count("reader_only_forms_rejected_with_error", 1);
+                        continue;
+                    }
+                    Err((loc, msg)) => {
+                        if msg.contains("not yet implemented") || msg.contains("not implemented") {
+                            rep.count("reader_only_forms_todo", 1);
+                        } else {
+                            rep.count("obligations", 1);
+                            rep.violation(Role::new(SITE_READER, name, &format!("reader-only;panic@{loc}")), format!("reader panics on `{text}`: {msg}"), json!({"part": "reader-semantics", "text": text, "width": w}));
+                        }
+                        continue;
+                    }
+                }
+            } else if !emitted(name) {
                 rep.count("operator_spellings_not_found_in_writer_source", 1);
                 continue;
             }
